@@ -31,6 +31,44 @@ theorem cache_history {β : Type} (src : DKey → β) (ofIt : Nat → β) (hist 
     ∀ s ∈ cachesOf src ofIt [] hist, Inv src ofIt s :=
   history_inv src ofIt hist [] (inv_empty src ofIt)
 
+/-- **T1 (returned values, histories)** for EVERY finite history of reads
+starting from the empty cache, EVERY call that returns, returns for EVERY
+requested name (scalar components of the requested tensors, and the time) at
+EVERY returned row exactly the source at (restart of the row, iteration of the
+row, name, requested level) — whatever the earlier calls left in the cache —
+and no requested name is absent from a row. -/
+theorem returned_cells {β : Type} (src : DKey → β) (ofIt : Nat → β) (hist : List Call) :
+    ∀ sc ∈ cachesBefore src ofIt [] hist, sc.2.req.flatten ≠ [] →
+      ∀ rows store', readData src ofIt sc.2.avail sc.2.grouped sc.2.req sc.2.its sc.2.rl sc.2.restart
+          sc.2.split sc.1 = some (rows, store') →
+        ∀ row ∈ rows, (∀ c ∈ row.2.2, c.2 = some (src ⟨row.2.1, row.1, c.1, sc.2.rl⟩)) ∧
+          (∀ n ∈ sc.2.req.flatten.map DName.var ++ [DName.t], n ∈ row.2.2.map Prod.fst) :=
+  fun sc hsc hreq rows store' h =>
+    readData_cells src ofIt sc.2.avail sc.2.grouped sc.2.req hreq sc.2.its sc.2.rl sc.2.restart sc.2.split sc.1
+      rows store' (history_before_ginv src ofIt hist [] (ginv_empty src ofIt) sc hsc) h
+
+/-- **T1 (returned values, one call)** the same for one call on any cache that
+satisfies the invariant (contents equal the source; a file that holds a
+variable at a level also holds the time at that level). -/
+theorem returned_cells_one_call {β : Type} (src : DKey → β) (ofIt : Nat → β) (avail : List Avail) (grouped : Bool)
+    (req : List (List Nat)) (hreq : req.flatten ≠ []) (its : List Nat) (rl : Nat) (restart : Option Nat)
+    (split : Bool) (store : Store β) (rows : List (Row β)) (store' : Store β) (hG : GInv src ofIt store)
+    (h : readData src ofIt avail grouped req its rl restart split store = some (rows, store')) :
+    GInv src ofIt store' ∧ ∀ row ∈ rows, (∀ c ∈ row.2.2, c.2 = some (src ⟨row.2.1, row.1, c.1, rl⟩)) ∧
+      (∀ n ∈ req.flatten.map DName.var ++ [DName.t], n ∈ row.2.2.map Prod.fst) :=
+  ⟨readData_ginv src ofIt avail grouped req its rl restart split store rows store' hG h,
+   readData_cells src ofIt avail grouped req hreq its rl restart split store rows store' hG h⟩
+
+/-- **T3** `returned_structure`: with `restart = -1` the rows are exactly the
+rows of the uncached read (C11 `read_order_complete`: the sorted requested
+iterations, each from its latest restart), cached or not. -/
+theorem returned_structure {β : Type} (src : DKey → β) (ofIt : Nat → β) (avail : List Avail) (grouped : Bool)
+    (req : List (List Nat)) (its : List Nat) (rl : Nat) (split : Bool) (store : Store β)
+    (rows : List (Row β)) (store' : Store β)
+    (h : readData src ofIt avail grouped req its rl none split store = some (rows, store')) :
+    rows.map (fun r => (r.1, r.2.1)) = readOrder avail its :=
+  readData_rows src ofIt avail grouped req its rl split store rows store' h
+
 /-- the mechanism that was wrong before the fix: `save_data(data_temp, it=S,
 vars=[av])` files under each iteration of `S` the entry at the POSITION OF THAT
 ITERATION in `data_temp['it']` (not at its position in `S`). -/
